@@ -1478,10 +1478,12 @@ func winnerSends(p *load.Prog, r *oblig.Run, rule string) {
 				}
 				// marks after the send (in this block)
 				marked := map[string]bool{}
+				markMap := map[string]string{}
 				for _, later := range b.Instrs[idx+1:] {
 					if mu, ok := later.(*ssa.MapUpdate); ok {
 						if k, isK := mu.Value.(*ssa.Const); isK && k.Value != nil && k.Value.ExactString() == "true" {
 							marked[env.desc(mu.Key, 0)] = true
+							markMap[env.desc(mu.Key, 0)] = env.desc(mu.Map, 0)
 						}
 					}
 				}
@@ -1490,6 +1492,10 @@ func winnerSends(p *load.Prog, r *oblig.Run, rule string) {
 					o.Fail("after a pair was sent its two individuals are not both marked as matched in the same step: a later pair can use one of them again (not one-to-one), or it is reported once more as a left-over")
 					continue
 				}
+				sendD := d
+				var mapAlias func(string) string
+				mapAlias = func(m string) string { return m }
+				markMapOf := func(side string) string { return mapAlias(markMap[sendD+"."+side]) }
 				decide := func(e2 *descEnv, blk *ssa.BasicBlock, d string) []string {
 					certain := e2.holdsAny(blk, func(f cfact) bool { return f.val && f.atom == d+".certainMatch" })
 					if certain {
@@ -1499,9 +1505,18 @@ func winnerSends(p *load.Prog, r *oblig.Run, rule string) {
 						return !f.val && strings.HasPrefix(f.atom, "SurroundingSimilarity.WeightedSimilarity("+d+".Similarity)<") && strings.HasSuffix(f.atom, ".MinimumWeightedSimilarity")
 					})
 					free := func(side string) bool {
+						// the map that is asked must be the map in which this side is marked after the send
+						mm := markMapOf(side)
 						return e2.holdsAny(blk, func(f cfact) bool {
-							return !f.val && strings.HasPrefix(f.atom, "lookup(") && (strings.HasSuffix(f.atom, ","+d+"."+side+")") || strings.HasSuffix(f.atom, ","+d+"."+side+")==true")) ||
-								!f.val && strings.HasPrefix(f.atom, "true==lookup(") && strings.HasSuffix(f.atom, ","+d+"."+side+")")
+							if f.val {
+								return false
+							}
+							for _, form := range []string{"lookup(" + mm + "," + d + "." + side + ")", "lookup(" + mm + "," + d + "." + side + ")==true", "true==lookup(" + mm + "," + d + "." + side + ")"} {
+								if f.atom == form {
+									return true
+								}
+							}
+							return false
 						})
 					}
 					var why []string
@@ -1534,6 +1549,7 @@ func winnerSends(p *load.Prog, r *oblig.Run, rule string) {
 							}
 							calls++
 							e2 := &descEnv{p: p, params: map[*ssa.Parameter]string{}, noInline: true}
+							mapAlias = func(m string) string { return strings.TrimPrefix(m, "^") }
 							if w := decide(e2, cs.Block(), e2.desc(cs.Common().Args[pi], 0)); len(w) > 0 {
 								why, where = w, " (call at "+p.Pos(cs.Pos())+")"
 							}
